@@ -4,6 +4,7 @@ import numpy as np
 from .. import common, impl, gen, tie, oracles
 from . import compute_common as cc
 from . import dendro_common as dc
+from . import relabel_common as rc
 from .c01 import ASSUMPTIONS, TRUSTED
 from astrodendro import Dendrogram
 
@@ -13,8 +14,10 @@ RULE = ('pairs of runs of /repo related by: every axis permutation and flip (1-4
         'increasing maps without pruning, and pairs of thresholds; distinct values: identical hierarchy (own pixel sets + '
         'parent relation) on the mapped pixels; ties: same trunk regions, same assigned set and, without pruning, same number '
         'of leaves; the base run of every pair is tied to the Coq model; non-trivial = base dendrogram with >= 3 structures')
-EXPLANATION = ('Theorems in props/C16.v (value maps commute with the construction; root regions do not depend on the order; '
-               'adjacency symmetric) + compute tie of the base runs + metamorphic oracle on the implementation')
+EXPLANATION = ('Theorems in props/C16.v (value maps and every isomorphism of the adjacency graph commute with the construction; '
+               'flips, padding, unit axes and exchanges of neighbouring axes along any axis are isomorphisms and compose; root '
+               'regions do not depend on the order) + compute tie of the base runs + tie of the relabelling maps to numpy '
+               '(flip / pad / swapaxes / expand_dims) + metamorphic oracle on the implementation')
 
 
 def hierarchy_mapped(d, shape, pixmap):
@@ -167,6 +170,8 @@ def explore(ctx):
     ctx.errors.extend(errs)
     for i in mism[:5]:
         ctx.tie_mismatch('compute (base run)', cases[i], refs[i], tie.model_compute_view(cases[i], 'c16_dump'))
+    # the relabellings the theorems speak about are the ones numpy performs
+    rc.run_relabel_tie(ctx, 'c16_relab', ['flip', 'pad', 'swap', 'unit'], 240 if ctx.quick else 2400)
 
 
 def matches_known(k, case, fails, extra):
